@@ -9,6 +9,8 @@ package props
 //	merge-rows-seq    MergeRowGroups(file.RowGroups())       merged view without sorting columns
 //	convert-rows-seq  ConvertRowGroup(rg, fields reordered)  convertedPages / converted rows (convert.go)
 //	reader-*          NewReader(file) (deprecated Reader)    ReadRows and Read(&T)
+//	generic-reset     GenericReader[T]: read to the failure, Reset(), read again (twice)
+//	reader-reset      the same on the deprecated Reader (Read(&T), Reset())
 //	rowgroup-reader   NewGenericRowGroupReader[T](rg)
 //	value-reader-*    NewColumnChunkValueReader(chunk)       columnChunkValueReader (column_chunk.go)
 //	copy-rows         CopyRows(sink, rg.Rows())
@@ -173,6 +175,31 @@ func (e *c13Env) entryAccesses(p c13Page, ks []int64, add func(path string, k in
 		return c13ReadOldReaderRows(parquet.NewReader(f), -1)
 	})
 	wrap("reader-read-seq", -1, func(f *parquet.File) (any, error) { return e.typed.readOld(f, -1) })
+	// Reset() of the typed readers after the failure: the rows in front of the corrupted page again, then
+	// the corruption again (limit: rows of the file in front of the corrupted page)
+	limit := e.rgRow[g] + p.FirstRow
+	wrap("generic-reset", -1, func(f *parquet.File) (any, error) {
+		return e.typed.readReset(f, false, limit, func() (any, error) {
+			return e.pristine("generic-all", func() (any, error) {
+				pf, err := c13Open(e.data)
+				if err != nil {
+					return nil, err
+				}
+				return e.typed.readAll(pf, -1)
+			})
+		})
+	})
+	wrap("reader-reset", -1, func(f *parquet.File) (any, error) {
+		return e.typed.readReset(f, true, limit, func() (any, error) {
+			return e.pristine("reader-all", func() (any, error) {
+				pf, err := c13Open(e.data)
+				if err != nil {
+					return nil, err
+				}
+				return e.typed.readOld(pf, -1)
+			})
+		})
+	})
 	wrap("rowgroup-reader", -1, func(f *parquet.File) (any, error) { return e.typed.readRG(f, g) })
 	wrap("value-reader-seq", -1, func(f *parquet.File) (any, error) {
 		return c13ReadValueReader(parquet.NewColumnChunkValueReader(f.RowGroups()[g].ColumnChunks()[col]), -1)
@@ -240,7 +267,7 @@ func c13IsEntryPath(path string) bool {
 	switch path {
 	case "column-pages-seq", "column-pages-seek", "multi-rows-seq", "multi-rows-seek", "multi-pages-seq", "merge-rows-seq",
 		"convert-rows-seq", "reader-rows-seq", "reader-rows-seek", "reader-read-seq", "reader-read-seek", "rowgroup-reader",
-		"value-reader-seq", "value-reader-seek", "copy-rows", "copy-pages", "print-chunk", "async-pages-wrap", "rewrite-rowgroup":
+		"value-reader-seq", "value-reader-seek", "generic-reset", "reader-reset", "copy-rows", "copy-pages", "print-chunk", "async-pages-wrap", "rewrite-rowgroup":
 		return true
 	}
 	return false
